@@ -127,6 +127,10 @@ impl ClockId {
     pub const SYSTEM: ClockId = ClockId(0);
 
     pub fn new() -> ClockId {
+        #[cfg(pendulum_project_ntpd_rs_verif)]
+        if let Some(id) = verif::next_clock_id() {
+            return ClockId(id);
+        }
         static COUNTER: AtomicU64 = AtomicU64::new(1);
         ClockId(COUNTER.fetch_add(1, std::sync::atomic::Ordering::Relaxed))
     }
